@@ -62,7 +62,7 @@ def run(tier, seed, argv):
     rep.assumptions = ["generic equality regime only (special values 0/1/-1 of the hyperparameters are covered by C01)", "real arithmetic; dtypes are tags",
                        "masked-list alignment reads internal attributes (_masked_*/_local_*): a renamed internal is a harness error, not a violation"]
     rep.validate_standin(6 if tier == "quick" else 24)
-    rep.absorb("presence", par.run_jobs(jobs, chunk=6))
+    rep.absorb("presence", par.run_jobs(jobs, chunk=6), soft=lambda j: j.startswith("r"))
     return rep.finish("checks.c04")
 
 
